@@ -178,7 +178,7 @@ def one(ctx, rng, xr, ops, names):
                 continue
         else:
             # alpha / gamma are float32 fits around a float32 peak frequency: the summation order changes with the layout
-            ok, det = compare(ra, rb, rtol * (300 if name in ("dspr", "swe", "sw", "gw", "dpspr") else (20 if (f32 and name in ("alpha", "gamma")) else 1)),
+            ok, det = compare(ra, rb, rtol * (300 if name in ("dspr", "swe", "sw", "gw", "dpspr", "dpspr_mom2") else (20 if (f32 and name in ("alpha", "gamma")) else 1)),
                               circ=op.circ, circ_atol=(0.05 if f32 else 1e-6), exact=False)
         if ok:
             rec.ok(name, key, sample={"transform": tdesc})
